@@ -230,7 +230,6 @@ const c06TraitsWithGaps = "genomestart 1\n" +
 	"gene 5 1 3 0.5 false 1 0.5 true\ngene 9 3 4 1.5 false 2 1.5 false\ngene 2 2 4 0.25 false 3 0.25 true\n" +
 	"genomeend 1\n"
 
-
 func c06NonTrivial(g *genetics.Genome) bool {
 	if len(g.ControlGenes) > 0 {
 		return true
